@@ -222,7 +222,12 @@ def run(ctx):
 
     # ---------------------------------------------------------------- 2. real side, in parallel
     tasks = []
+    only = [x for x in os.environ.get("C15_ONLY", "").split(",") if x]   # developer knob: skeleton name prefixes
+    if only:
+        ctx.extra["restricted_to_skeletons"] = only
     for si, sk in enumerate(sks):
+        if only and not any(sk["name"].startswith(x) for x in only):
+            continue
         n = L.n_assignments(sk)
         ks = list(range(n))
         step = 250
@@ -240,6 +245,8 @@ def run(ctx):
         per_sk = ctx.scale(12, 120)
         src_tasks = []
         for sk in sks:
+            if only and not any(sk["name"].startswith(x) for x in only):
+                continue
             n = L.n_assignments(sk)
             for k in sorted(ctx.rng.sample(range(n), min(per_sk, n))):
                 asg = L.assignment_at(sk, k)
